@@ -19,7 +19,7 @@
     [C08_compiles_iff_wellformed] puts the two halves together for strings. Nothing of the property is
     left unproved on the model; the check compares the implementation with the model and with an
     independent maximal-munch lexer and recogniser. *)
-From MowCli Require Import Base Lexer Parser Values Flow Cmd LexerProofs ParserProofs GrammarProofs ShapeProofs MunchProofs.
+From MowCli Require Import Base Lexer Parser Values Flow Cmd LexerProofs ParserProofs GrammarProofs ShapeProofs MunchProofs TraceProofs.
 
 (** the lexer never runs out of the fuel [tokenize] gives it *)
 Theorem C08_lexer_total : forall s, tokenize s <> LexFuel.
@@ -78,6 +78,18 @@ Theorem C08_panics_before_hooks :
     run pf ge a argv = mkResult (RPanicSpec m p) [] [] [].
 Proof. intros pf ge a argv m p H. unfold run. now rewrite H. Qed.
 
+(** ... and so does the spec (or declaration) error of ANY command of the tree that Run initialises on
+    its way down, whatever the argument vector: nothing has run when it panics *)
+Theorem C08_panics_before_hooks_at_any_level :
+  forall pf ge a argv,
+    (exists m p, r_outcome (run pf ge a argv) = RPanicSpec m p) \/
+    (exists m, r_outcome (run pf ge a argv) = RPanicDecl m) ->
+    r_trace (run pf ge a argv) = [].
+Proof.
+  intros pf ge a argv H. apply run_error_runs_nothing.
+  destruct H as [(m & p & ->)|(m & ->)]; reflexivity.
+Qed.
+
 (** the recursive-descent parser and the declarative grammar accept the same token lists, with the
     same syntax tree *)
 Theorem C08_parser_iff_grammar :
@@ -124,6 +136,7 @@ Print Assumptions C08_parser_total.
 Print Assumptions C08_parser_error_at_token.
 Print Assumptions C08_error_inside.
 Print Assumptions C08_panics_before_hooks.
+Print Assumptions C08_panics_before_hooks_at_any_level.
 
 (** D5, repaired: a dangling '-' is an error inside the string *)
 Example C08_dangling_dash : tokenize (lit "- X") = LexErr msg_optname 1.
